@@ -50,7 +50,7 @@ structure Data (β : Type) where
   base : Nat
   bytes : List β
   snap : Option (List β)
-deriving Repr
+deriving Repr, DecidableEq
 
 def Data.right (d : Data β) : Nat := d.base + d.bytes.length
 
@@ -147,6 +147,7 @@ structure Msg (β : Type) where
   offset : Int
   size : Int
   data : List β
+deriving DecidableEq
 
 def ctl (c : Code) : Msg β := ⟨c, "", false, 0, 0, []⟩
 
